@@ -937,7 +937,8 @@ var rR18 = RuleRef{Name: "R18", Doc: "the apply loop cannot block: every executo
 			continue
 		}
 		n++
-		c.Add("R18", fnName(fn), "command "+strings.ToUpper(name)+" is kept out of the replicated log", c.Facts.RegSites[name], rejected[name], strings.TrimSpace(why)+"; not rejected by ClusterCmdFilter")
+		// keyed by the command, not by the function that happens to implement it today
+		c.Add("R18", "memdb", "command "+strings.ToUpper(name)+" is kept out of the replicated log", c.Facts.RegSites[name], rejected[name], strings.TrimSpace(why)+"; not rejected by ClusterCmdFilter")
 	}
 	c.Count("R18_blocking_or_conn_executors", n)
 	c.Min("R18_blocking_or_conn_executors", 3)
